@@ -40,6 +40,11 @@ def cases(rng, tier):
         for qt in (253, 254, 255, 252, 251, rt, (rt + 1) & 0xFFFF, (rt + 64) & 0xFFFF, rt ^ 0x100):
             out.append("MATCH %x 1 %x 1" % (rt, qt))
         out.append("MATCHN %x 1 fd ff" % rt)
+    # question types built directly as QTYPE::TYPE(TYPE::from(code)) - what `TYPE::from(code).into()` gives - for every code, the
+    # meta codes 251..255 included: such a question asks for records of exactly that type code and for nothing else
+    for qt in list(range(0, 300)) + [4242, 32768, 65280, 65535]:
+        for rt in sorted(set(rts) | {qt, 251, 252, 253, 254, 255}):
+            out.append("MATCHU %x 1 %x 1" % (rt, qt))
     # records held as RData::NULL(code, data), by construction
     for rt in rts:
         for qt in qts:
@@ -162,6 +167,14 @@ def oracle(case, out):
             return "a well-formed record of type %d, class %d was rejected: %r" % (rt, wc, out)
         out = out[3:]
         t = ["MATCH", "%x" % rt, "%x" % wc, t[2], t[3]]
+    if t[0] == "MATCHU":
+        rt, rc, qt, qc = (int(x, 16) for x in t[1:5])
+        o = out.split()
+        if len(o) != 3:
+            return "MATCHU: malformed output %r" % out
+        if o[1] != ("1" if rt == qt else "0"):
+            return "match_qtype(record of type code %d, QTYPE::TYPE(TYPE::from(%d))) = %s, expected %d" % (rt, qt, o[1], int(rt == qt))
+        return None
     if t[0] in ("MATCH", "MATCHN"):
         rt, rc, qt, qc = (int(x, 16) for x in t[1:5])
         rname = tyname(rt)
